@@ -143,7 +143,15 @@ impl LazyBigint {
     { unimplemented!() }
     /// num_traits::ToPrimitive
     #[verifier::external_body]
-    pub fn to_usize(&self) -> (r: Option<usize>) ensures r matches Some(x) ==> x as int == self.val() { unimplemented!() }
+    pub fn to_usize(&self) -> (r: Option<usize>)
+        ensures r matches Some(x) ==> x as int == self.val(), r is None <==> (self.val() < 0 || self.val() > usize::MAX),
+    { unimplemented!() }
+    /// num_traits::Signed::abs
+    #[verifier::external_body]
+    pub fn abs(&self) -> (r: LazyBigint) ensures r.val() == (if self.val() < 0 { -self.val() } else { self.val() }) { unimplemented!() }
+    /// num_traits::One::one
+    #[verifier::external_body]
+    pub fn one() -> (r: LazyBigint) ensures r.val() == 1 { unimplemented!() }
     #[verifier::external_body]
     pub fn true_div(self, rhs: LazyBigint) -> (r: f64) requires rhs.val() != 0 { unimplemented!() }
     #[verifier::external_body]
@@ -179,14 +187,23 @@ pub struct ManagedXError;
 pub type RuntimeResult<T> = Result<T, RuntimeViolation>;
 pub type XResult<T> = RuntimeResult<Result<T, Rc<ManagedXError>>>;
 pub struct Rt;
+/// `stat.size.saturating_add(usize::MAX) > size_limit` for every limit below usize::MAX
+pub axiom fn axiom_max_never_fits(rt: &Rt) ensures rt.limited() ==> !rt.fits(usize::MAX);
 impl Rt {
     #[verifier::external_body]
     pub fn clone(&self) -> (r: Rt) { unimplemented!() }
     #[verifier::external_body]
     pub fn can_allocate(&self, new_size: usize) -> (r: RuntimeResult<()>) { unimplemented!() }
+    /// a size limit below usize::MAX is configured
+    pub uninterp spec fn limited(&self) -> bool;
+    /// the accounted size plus `size` stays within the configured limit
+    pub uninterp spec fn fits(&self, size: usize) -> bool;
+    /// RTCell::can_allocate_by (runtime.rs): with a size limit, Ok exactly when the estimate `f` answers is absent
+    /// (unknown: the check is skipped) or fits
     #[verifier::external_body]
     pub fn can_allocate_by<F: Fn() -> Option<usize>>(&self, f: F) -> (r: RuntimeResult<()>)
         requires f.requires(()),
+        ensures (self.limited() && r is Ok) ==> exists|o: Option<usize>| #[trigger] f.ensures((), o) && (o matches Some(s) ==> self.fits(s)),
     { unimplemented!() }
     #[verifier::external_body]
     pub fn can_afford(&self, x: &LazyBigint) -> (r: RuntimeResult<()>) { unimplemented!() }
@@ -208,7 +225,7 @@ pub assume_specification<T, U> [Option::<T>::zip] (a: Option<T>, b: Option<U>) -
 pub trait ToPrimitive { fn to_usize(&self) -> Option<usize>; }
 impl ToPrimitive for u64 {
     #[verifier::external_body]
-    fn to_usize(&self) -> (r: Option<usize>) { unimplemented!() }
+    fn to_usize(&self) -> (r: Option<usize>) ensures r == Some(*self as usize) { unimplemented!() }
 }
 #[verifier::external_body]
 pub fn max(a: usize, b: usize) -> (r: usize) ensures r == (if a >= b { a } else { b }) { unimplemented!() }
